@@ -55,14 +55,11 @@ func runC06(c *an.Ctx) {
 	fromApprove := mustFunc(c, ontPkg+".fromApprove")
 	transfer := mustFunc(c, ontPkg+".Transfer")
 	transferedFrom := mustFunc(c, ontPkg+".TransferedFrom")
-	genBalanceKey := mustFunc(c, ontPkg+".GenBalanceKey")
-	genTFKey := mustFunc(c, ontPkg+".genTransferFromKey")
-	genApproveKey := mustFunc(c, ontPkg+".GenApproveKey")
 	sub := mustObj(c, "core/states.NativeTokenBalance.Sub")
 	put := mustObj(c, "smartcontract/storage.(*CacheDB).Put")
 	del := mustObj(c, "smartcontract/storage.(*CacheDB).Delete")
 	if checkWitness == nil || reduce == nil || increase == nil || fromApprove == nil || transfer == nil || transferedFrom == nil ||
-		genBalanceKey == nil || genTFKey == nil || genApproveKey == nil || sub == nil || put == nil || del == nil {
+		sub == nil || put == nil || del == nil {
 		return
 	}
 	witness := an.GuardForFuncs("CheckWitness", checkWitness)
@@ -102,9 +99,10 @@ func runC06(c *an.Ctx) {
 		for _, k := range an.CallsTo(transfer, checkWitness) {
 			cwPath = argPath(k, 0)
 		}
+		// the debited key is <contract> ++ <address>, whether built by GenBalanceKey or in place
 		for _, k := range an.CallsTo(transfer, funcObj(reduce)) {
-			if kc := callArgCall(k, 1); kc != nil && kc.Call.StaticCallee() == genBalanceKey {
-				keyPath = argPath(kc, 1)
+			if parts := keyParts(transfer, argsNoRecv(k.Common())[1]); len(parts) == 2 {
+				keyPath = parts[1]
 			}
 		}
 		ok = cwPath != "" && cwPath == keyPath
@@ -124,13 +122,14 @@ func runC06(c *an.Ctx) {
 		var aFrom, aSender, dFrom string
 		var wit []string
 		for _, k := range an.CallsTo(transferedFrom, funcObj(fromApprove)) {
-			if kc := callArgCall(k, 1); kc != nil && kc.Call.StaticCallee() == genTFKey {
-				aFrom, aSender = argPath(kc, 1), argPath(kc, 2)
+			// the allowance key is <contract> ++ <owner> ++ <spender>, whether built by a helper or in place
+			if parts := keyParts(transferedFrom, argsNoRecv(k.Common())[1]); len(parts) == 3 {
+				aFrom, aSender = parts[1], parts[2]
 			}
 		}
 		for _, k := range an.CallsTo(transferedFrom, funcObj(reduce)) {
-			if kc := callArgCall(k, 1); kc != nil && kc.Call.StaticCallee() == genBalanceKey {
-				dFrom = argPath(kc, 1)
+			if parts := keyParts(transferedFrom, argsNoRecv(k.Common())[1]); len(parts) == 2 {
+				dFrom = parts[1]
 			}
 		}
 		// witness checks in TransferedFrom and the private helpers it calls, named relative to TransferedFrom
@@ -186,8 +185,9 @@ func runC06(c *an.Ctx) {
 		// the value subtracted is the function's amount parameter and the
 		// value stored is the subtraction's result
 		okAmt := false
-		for _, k := range an.CallsTo(fn, sub) {
-			if argPath(k, 0) == "value" {
+		// the amount: the function's last parameter (whatever it is called)
+		for _, k := range an.CallsToReach(fn, sub) {
+			if an.AccessPathIn(fn, an.Origin(argsNoRecv(k.Common())[0])) == fn.Params[len(fn.Params)-1].Name() {
 				okAmt = true
 			}
 		}
@@ -214,8 +214,8 @@ func runC06(c *an.Ctx) {
 		ok, why := an.MustPassToSuccess(c.P, increase, callsIn(increase, put))
 		c.Check(ok, "pair|ont.increaseToBalance|stores", "increaseToBalance stores the increased balance on every success path", c.P.Rel(increase.Pos()), why)
 		okAmt := false
-		for _, k := range an.CallsTo(increase, add) {
-			if argPath(k, 0) == "value" {
+		for _, k := range an.CallsToReach(increase, add) {
+			if an.AccessPathIn(increase, an.Origin(argsNoRecv(k.Common())[0])) == increase.Params[len(increase.Params)-1].Name() {
 				okAmt = true
 			}
 		}
@@ -236,8 +236,9 @@ func runC06(c *an.Ctx) {
 			w = argPath(k, 0)
 		}
 		for _, k := range an.CallsTo(fn, put) {
-			if kc := callArgCall(k, 0); kc != nil && kc.Call.StaticCallee() == genApproveKey {
-				owner = argPath(kc, 1)
+			// the allowance key is <contract> ++ <owner> ++ <spender>
+			if parts := keyParts(fn, argsNoRecv(k.Common())[0]); len(parts) == 3 {
+				owner = parts[1]
 			}
 		}
 		c.Check(w != "" && w == owner, "same-subject|"+an.FuncName(fn)+"|witness==owner", "the witnessed address is the owner in the allowance key", c.P.Rel(fn.Pos()),
